@@ -170,7 +170,8 @@ Definition first_null (t : ctable) (rs : list row) : option string :=
 (* ---------- DROP TABLE under foreign_keys=ON: the implicit DELETE FROM parent ---------- *)
 Definition action_of (x : option ref_action) : ref_action := match x with Some a => a | None => NoAction end.
 (* Deleting the rows [gone] of table [parent] (DROP TABLE deletes all of them), one parent row at a time.  The foreign keys of
-   a child table act in catalog order (the order PRAGMA foreign_key_list reports: last declared first): RESTRICT refuses when
+   a child table act last declared first (the order PRAGMA foreign_key_list reports; [ct_fks] keeps the declaration order, as
+   CREATE TABLE wrote it and as the correspondence transcribes the real catalog): RESTRICT refuses when
    a referencing row is still there at its turn; CASCADE deletes the referencing rows — and that deletion fires the actions of
    the foreign keys that reference the child table, to any depth ([fuel]; running out of it is an explicit error) —; SET NULL /
    SET DEFAULT rewrite the child rows; NO ACTION (the default) is judged at the end of the statement on the rows that are
@@ -211,7 +212,7 @@ Definition on_delete_child (parent : string) (gone : list row) (child : ctable) 
         | Restrict => Err (DForeignKey (ct_name child))
         | NoAction => Ok (cur, removed)
         end
-    end) (ct_fks child) (Ok (rs, [])).
+    end) (rev (ct_fks child)) (Ok (rs, [])).
 
 Fixpoint delete_rows (fuel : nat) (tables : list ctable) (parent : string) (gone : list row)
   (st : rows_db * list pending_check) : result (rows_db * list pending_check) db_error :=
@@ -256,7 +257,8 @@ Definition implicit_delete (parent : string) (parent_rows : list row) (tables : 
   : result rows_db db_error :=
   if existsb (fun t => (ieq (ct_name t) parent && self_restrict_violated t parent_rows)%bool) tables
   then Err (DForeignKey parent) else
-  match delete_rows (S (List.length tables)) tables parent parent_rows (d, []) with
+  (* the child tables act from the most recently created one to the oldest ([cat_tables] keeps the creation order) *)
+  match delete_rows (S (List.length tables)) (rev tables) parent parent_rows (d, []) with
   | Err e => Err e
   | Ok (d', pend) =>
       match find (fun p => let '(ch, f, par, gone) := p in existsb (fk_hits par gone f) (rows_of ch d')) pend with
